@@ -799,6 +799,8 @@ package trzsz
 //@   requires t.buffer != nil && tbWF(t.buffer)
 //@   ghostvar agreed int64 = 0
 //@   after trzszTransfer.recvHashAck set agreed = ite(r1 == nil && r0.Match, r0.Step, agreed)
+//@   # what is reported to sendPrefixHash as the offset to resume from is exactly that step
+//@   before send:matchChan assert [C08] p0 == agreed
 //@   loop 1
 //@     invariant tbWF(t.buffer)
 //@     invariant [C08] (matchStep < size || matchStep == 0) && matchStep == agreed
@@ -1333,6 +1335,12 @@ package trzsz
 
 //@ func trzszDetector.detectTrzsz
 //@   requires detector.uniqueIDMap != nil
+//@   # scroll-back of a finished transfer: every marker is searched for in everything from the 40th byte
+//@   # after the start of the trigger on, and one hit is enough to start nothing
+//@   ghostvar sawFinished bool = false
+//@   after bytes.Contains set sawFinished = sawFinished || r0
+//@   before bytes.Contains assert [C06] len(subOutput) > 40 && same(p0, subOutput[40:])
+//@   ensures [C06] sawFinished ==> r1 == nil
 //@   ensures [C05,C06] r1 == nil && !(detector.relay && detector.tmux) ==> same(r0, output)
 //@   ensures [C06] len(output) < 24 ==> r1 == nil
 //@   ensures [C06] result_of("bytes.LastIndex", 0, 0) < 0 ==> r1 == nil
@@ -1346,6 +1354,8 @@ package trzsz
 //@   ensures [C06] r1 != nil && !detector.relay ==> same(r0, result_of("bytes.ReplaceAll", 0, 0))
 //@   ensures [C06] len(result_of("regexp.Regexp.FindSubmatch", 1, 0)) > 1 && !tunnel ==> r1 == nil
 //@   ensures [C06] r1 != nil ==> r1.tunnelPort == 0 || r1.tunnelPort == result_of("strconv.Atoi", 0, 0)
+//@   loop 1
+//@     invariant !sawFinished
 //@ end
 
 //@ func trzszDetector.rewriteTrzszTrigger pure
@@ -1612,4 +1622,25 @@ package trzsz
 //@   before send:connChan#1 assert [C17] p0 == nil && closedC[conn]
 //@   before send:connChan#2 assert [C17] p0 == nil && closedC[conn]
 //@   before send:connChan#3 assert [C17] p0 == nil && closedC[conn]
+//@ end
+
+//@ # OSC52 scanning only looks at the chunk: what it keeps of an unfinished clipboard sequence lives in a
+//@ # buffer of its own, never in the array of the chunk (which is the pump's reusable read buffer), so
+//@ # no byte of the chunk - this one or a later one - is changed before it is forwarded.
+//@ pure osc52Private(filter *TrzszFilter, a []byte) bool = \
+//@     ref(a) != 0 ==> filter.osc52Sequence == nil || bufArr[filter.osc52Sequence] != ref(a)
+//@ # ASSUMED: the clipboard writer (a package-level function variable) does not touch the filter's memory
+//@ purevar writeToClipboard
+//@ func TrzszFilter.detectOSC52
+//@   requires [C05] osc52Private(filter, buf)
+//@   ensures [C05] osc52Private(filter, buf)
+//@   ensures [C05] ref(buf) != 0 ==> heap("byte")[ref(buf)] == old(heap("byte"))[ref(buf)]
+//@   loop 1
+//@     invariant ref(buf) == ref(old(buf)) || len(buf) == 0
+//@     invariant osc52Private(filter, old(buf))
+//@     invariant ref(old(buf)) != 0 ==> heap("byte")[ref(old(buf))] == old(heap("byte"))[ref(old(buf))]
+//@   loop 2
+//@     invariant ref(buf) == ref(old(buf)) || len(buf) == 0
+//@     invariant osc52Private(filter, old(buf))
+//@     invariant ref(old(buf)) != 0 ==> heap("byte")[ref(old(buf))] == old(heap("byte"))[ref(old(buf))]
 //@ end
